@@ -67,6 +67,49 @@ def path_history(rng, hid, length):
     return {"id": "p%d" % hid, "setup": setup, "calls": calls}
 
 
+def walk_history(rng, hid, length):
+    """Guest paths with ".." components and symbolic links to directories on the way (WasiFs walk mode): the host resolves
+    them component by component; what w2c2 hands to the host - and what it remembers as the path of a directory descriptor -
+    must denote the same objects.  Tree: a/ a/b/ o/ o/in/, files a/f o/in/g o/h, links lk -> o/in, a/b/up -> ../../o,
+    o/back -> ../a, c1 -> c2, c2 -> c1 (a cycle), dang -> nowhere/x, a/here -> ."""
+    setup = [{"call": "mkdirs", "path": x} for x in ("a", "a/b", "o", "o/in")] + \
+            [{"call": "mkfile", "path": x, "bytes": [len(x), 7]} for x in ("a/f", "o/in/g", "o/h")] + \
+            [{"call": "mklink", "path": p_, "target": t_} for p_, t_ in (("lk", "o/in"), ("a/b/up", "../../o"), ("o/back", "../a"), ("c1", "c2"), ("c2", "c1"),
+                                                                       ("dang", "nowhere/x"), ("a/here", "."))]
+    # ways to name a directory (walked completely): they end in "..", in a link to a directory, in "." - or are plain
+    dirpaths = ["lk/..", "a/b/up", "a/b/up/in", "a/b/up/in/..", "a/b/../b/up/..", "lk/../../a/./b", "o/back/b/up/in", "a/here/b/..", "a/here/here/b",
+                "lk", "a/..", "o/in/../..", "a/b/up/back", "c1", "c1/x/..", "dang/..", "a/f/..", "nope/..", "lk/../../..", "a/b/up/../o"]
+    # ways to name an entry: a walked directory part, then a plain last name
+    parents = ["", "lk/..", "a/b/up", "a/b/up/in", "lk", "o/back", "a/here", "a/b/..", "lk/../in", "c1", "dang", "a/f", "o/back/b/up", "a/../o/in/.."]
+    lasts = ["n1", "g", "f", "h", "in", "b", "new", "up"]
+    calls, dirfds, nextfd = [], [3], 4
+    for _ in range(length):
+        abi = rng.choice("pu")
+        dirfd = rng.choice(dirfds)
+        r = rng.random()
+        if r < 0.3:
+            raw = rng.choice(dirpaths)
+            calls.append({"call": "open", "abi": abi, "dirfd": dirfd, "path": raw, "rawpath": raw, "abs": False, "oflags": rng.choice([2, 2, 0]), "rd": True, "wr": False,
+                          "app": False, "walk": True, "wcomps": [x for x in raw.split("/") if x], "wlast": ""})
+            dirfds.append(nextfd)          # a guess (the model decides whether the open succeeds)
+            nextfd += 1
+            continue
+        par, last = rng.choice(parents), rng.choice(lasts)
+        raw = (par + "/" if par else "") + last
+        k = rng.choice(["mkdir", "unlink", "pathstat", "readlink", "symlink", "rmdir", "mkdir", "pathstat", "open"])
+        c = {"call": k, "abi": abi, "dirfd": dirfd, "path": raw, "rawpath": raw, "parent": par, "under": [], "walk": True,
+             "wcomps": [x for x in par.split("/") if x], "wlast": last}
+        if k == "symlink":
+            c["target"] = rng.choice(["../a", "f", "in/g", "."])
+        elif k == "readlink":
+            c["buflen"] = 64
+        elif k == "open":
+            c.update({"abs": False, "oflags": rng.choice([0, 1, 1 | 4]), "rd": True, "wr": rng.random() < 0.5, "app": False})
+            nextfd += 1
+        calls.append(c)
+    return {"id": "w%d" % hid, "setup": setup, "calls": calls}
+
+
 def dot_history(rng, hid, length):
     """Paths with "." components.  Inside a path they change nothing ("./a", "d/./c": same object); as the LAST component
     ("." "./" "d/." "././") they name a directory through itself, which the host treats differently from the same directory
@@ -225,6 +268,8 @@ def main():
         hists = [path_history(rng, j, 12) for j in range(200 if tier == "quick" else 4000)]
         drng = random.Random(SEED + 1414)
         hists += [dot_history(drng, j, 10) for j in range(60 if tier == "quick" else 1500)]
+        wrng = random.Random(SEED + 1415)
+        hists += [walk_history(wrng, j, 9) for j in range(80 if tier == "quick" else 2000)]
         st, exp = c12.run_all(v, hists, wd, tier, pid="C14", ls_after=("mkdir", "rmdir", "unlink", "symlink", "rename", "open"))
         states += st["states"]
         trans += st["transitions"]
